@@ -1,2 +1,23 @@
 (* C04 — the property theorems about the scheduler model, and nothing else. *)
 From VF Require Import Sched.Proofs.
+Open Scope Z_scope.
+
+(* [minimal less l] are exactly the elements of l no element of l is Less than
+   (the admissible heap roots). *)
+Theorem minimal_sound : forall {A} (less : A -> A -> bool) (l : list A) (x : A),
+  In x (minimal less l) -> In x l /\ forall y, In y l -> less y x = false.
+Proof. exact @minimal_sound. Qed.
+Print Assumptions minimal_sound.
+
+Theorem minimal_complete : forall {A} (less : A -> A -> bool) (l : list A) (x : A),
+  In x l -> (forall y, In y l -> less y x = false) -> In x (minimal less l).
+Proof. exact @minimal_complete. Qed.
+Print Assumptions minimal_complete.
+
+(* For a strict partial order a non-empty heap has a root. *)
+Theorem minimal_nonempty : forall {A} (less : A -> A -> bool) (l : list A),
+  (forall x, In x l -> less x x = false) ->
+  (forall x y z, In x l -> In y l -> In z l -> less x y = true -> less y z = true -> less x z = true) ->
+  l <> [] -> minimal less l <> [].
+Proof. exact @minimal_nonempty. Qed.
+Print Assumptions minimal_nonempty.
